@@ -14,6 +14,10 @@ EXC_OF = {"raise": "InjectedFault", "raise_noargs": "InjectedFault", "raise_asse
 KINDS_HE = ["notpair", "sdzero", "sdneg", "sdnan", "sdinf"]
 SITE = "function_logger.py:__call__ / bads.py target call sites"
 
+# case kinds of corpus/ entries (failing inputs of past regressions) that this module replays on every run
+CORPUS_KINDS = ('fault_run',)
+
+
 
 def base_specs(seed, tier):
     rng = random.Random(f"c10:{seed}")
